@@ -10,6 +10,13 @@ LEVEL_NOTE = ("trusted: go/ssa translation; the gosym SSA interpreter (validated
 TECH = "solver-based bounded symbolic execution of the real code (go/ssa -> SMT bit-vectors, z3), counterexamples replayed natively"
 
 CLAIMED = {
+    "C01": ("bounded symbolic model checking of the RESP codec and the connection read loop on symbolic bytes: parse(enc(args) ++ tail) returns exactly args and "
+            "len(enc(args)) for arbitrary argument bytes (incl. CR/LF/NUL/non-UTF-8) and every strict prefix is 'need more'; deserialize(serialize(v)) = v for bounded reply "
+            "trees; error replies quoting arbitrary client bytes stay one frame; the real clientCxn inbound-buffer code dispatches two pipelined commands in order for every "
+            "cutting of the stream into <= 3 segments and writes cut-independent reply bytes", "5/C01"),
+    "C13": ("bounded symbolic model checking of the parser on every byte string up to 5 (quick) / 7 (thorough) bytes and of the length-taking parser routines for every "
+            "non-negative declared count: no panic, no allocation by declared size, consumed length inside the buffer (command-level no-panic obligations are part of "
+            "the per-family checks C02-C05/C18, whose harnesses run under vCatch with unconstrained int64 arguments)", "5/C13"),
     "C02": ("bounded symbolic model checking of the real command path (dispatcher, grammar parser, handlers, store) for the string/counter family: "
             "SET option combinations on every key type, SETNX/GETSET/GETDEL/APPEND/STRLEN, MSET/MSETNX all-or-nothing, INCR family for all int64 "
             "old values and deltas with exact overflow, GETRANGE/SETRANGE for all int64 offsets, against a model of t_string.c; values are symbolic byte strings of <= 2-3 bytes", "5/C02"),
